@@ -300,6 +300,20 @@ func genC04(g *Gen) {
 		}
 		t.Nodes = kept
 	}
+	if g.R.Pct(25) {
+		// a gap in the slot space: one master gives up the upper half of a range and nobody claims it. Requests for those slots
+		// (and multi-key requests with one key in the gap) are refused by the proxy; everything else must still be routed by
+		// slot and role - also right after such a refusal.
+		for try := 0; try < 10; try++ {
+			n := &t.Nodes[g.R.Intn(m)]
+			if len(n.Slots) > 0 {
+				if r := n.Slots[0]; r[1]-r[0] > 20 {
+					n.Slots[0] = [2]int{r[0], (r[0] + r[1]) / 2}
+					break
+				}
+			}
+		}
+	}
 	p.Topos = []Topology{t}
 	g.swarmProxy()
 	g.cleanKernel()
@@ -340,6 +354,12 @@ func genC04(g *Gen) {
 				a[1] = []byte(key)
 				rq.Raw = EncodeCommand(a...)
 				rq.Keys = []string{key}
+			}
+			for _, k := range rq.Keys {
+				if t.Owner(RefSlot([]byte(k))) == nil {
+					// a key in the unclaimed part of the slot space: the whole request is refused with an error (any error text)
+					rq.Class, rq.Expect = "reject", []byte("-")
+				}
 			}
 			cp.Reqs = append(cp.Reqs, rq)
 		}
@@ -563,6 +583,22 @@ func genC06(g *Gen) {
 			cp.Reqs = append(cp.Reqs, g.bigSplit(Tok(ci, ri), maxKeys))
 		}
 		p.Clients = append(p.Clients, cp)
+	}
+	if p.Variant == "fdreuse" {
+		// a client that sends only the first part of a multi-key request (at least the command and one key) and goes away; the
+		// clients with the real workload arrive afterwards and get its descriptor number
+		gone := ClientPlan{Addr: clientAddr(len(p.Clients)), Mode: "pipeline", CloseAfterReplies: -1, CloseRst: g.R.Pct(50), StartStep: 0}
+		rq := g.bigSplit(Tok(len(p.Clients), 0), 12)
+		rq.Class = "abandoned"
+		gone.Reqs = []ReqPlan{rq}
+		gone.CloseAfterSent = g.R.Range(len(rq.Raw)/2, len(rq.Raw)-2)
+		gone.Chunks = []int{gone.CloseAfterSent}
+		p.Clients = append(p.Clients, gone)
+		for ci := 0; ci < len(p.Clients)-1; ci++ {
+			p.Clients[ci].StartAfterClient = len(p.Clients)
+			p.Clients[ci].StartStep = 0
+		}
+		return
 	}
 	if p.Variant != "huge" && g.R.Pct(20) {
 		// a small request size limit: the multi-key requests above it are rejected as a whole (nothing of them may reach a
